@@ -219,9 +219,24 @@ inline void namingForms_C11(Sink& out, C11Stats& st) {
         { SubFrame sf; Channel ch; ch.name(std::string(raw)); sf.channel(ch); st.lookups++; Outcome oc = guarded([&] { (void)sf.channelIdx(want); }); if (oc != OK) V(out, "C11", "trimmed_name_not_found/subframe/temporary", std::string("\"") + raw + "\""); }
     }
 }
+// a write reference taken BEFORE look-ups is still the element: a rename made through it after successful and failed searches by name is what later searches see
+inline void heldReference_C11(Sink& out, C11Stats& st) {
+    {   Points P; for (auto n : {"A", "B", "C"}) { Point p; p.name(n); P.point(p); }
+        Point& kept = P.point_nonConst(1); Outcome a = guarded([&] { (void)P.pointIdx("B"); (void)P.point("A"); }); Outcome b = guarded([&] { (void)P.pointIdx("nope"); }); kept.name("Z"); st.lookups += 4;
+        size_t iz = 99; Outcome c = guarded([&] { iz = P.pointIdx("Z"); }); Outcome d = guarded([&] { (void)P.pointIdx("B"); });
+        if (a != OK || b != INVALID_ARGUMENT || c != OK || iz != 1 || d != INVALID_ARGUMENT) V(out, "C11", "rename_through_kept_reference_not_seen/points", std::string("after look-ups, Z ") + (c == OK ? "found at " + S(iz) : "not found") + ", B " + (d == OK ? "still found" : "gone")); }
+    {   SubFrame sf; for (auto n : {"a", "b", "c"}) { Channel ch; ch.name(n); sf.channel(ch); }
+        Channel& kept = sf.channel_nonConst(1); Outcome a = guarded([&] { (void)sf.channelIdx("b"); (void)sf.channel("a"); }); Outcome b = guarded([&] { (void)sf.channelIdx("nope"); }); kept.name("z"); st.lookups += 4;
+        size_t iz = 99; Outcome c = guarded([&] { iz = sf.channelIdx("z"); }); Outcome d = guarded([&] { (void)sf.channelIdx("b"); });
+        if (a != OK || b != INVALID_ARGUMENT || c != OK || iz != 1 || d != INVALID_ARGUMENT) V(out, "C11", "rename_through_kept_reference_not_seen/subframe", std::string("after look-ups, z ") + (c == OK ? "found at " + S(iz) : "not found") + ", b " + (d == OK ? "still found" : "gone")); }
+    {   Group g("G"); for (auto n : {"P1", "P2", "P3"}) { Param p(n); p.set(1); g.parameter(p); }
+        Param& kept = g.parameter_nonConst(1); Outcome a = guarded([&] { (void)g.parameterIdx("P2"); }); Outcome b = guarded([&] { (void)g.parameterIdx("nope"); }); kept.name("PZ"); st.lookups += 4;
+        size_t iz = 99; Outcome c = guarded([&] { iz = g.parameterIdx("PZ"); }); Outcome d = guarded([&] { (void)g.parameterIdx("P2"); });
+        if (a != OK || b != INVALID_ARGUMENT || c != OK || iz != 1 || d != INVALID_ARGUMENT) V(out, "C11", "rename_through_kept_reference_not_seen/group", std::string("after look-ups, PZ ") + (c == OK ? "found at " + S(iz) : "not found") + ", P2 " + (d == OK ? "still found" : "gone")); }
+}
 inline void sweep_C11(World& w, const WSnap& s, Sink& out, C11Stats& st) {
     const C3D& c = *w.c; const OSnap& o = s.o;
-    if (o.frames.empty() && o.groups.size() <= 3) namingForms_C11(out, st);   // object-independent: once per exploration is enough, done in the few smallest states
+    if (o.frames.empty() && o.groups.size() <= 3) { namingForms_C11(out, st); heldReference_C11(out, st); }   // object-independent: once per exploration is enough, done in the few smallest states
     // frames
     posSweep("frame", o.frames.size(), [&](size_t i) -> const Frame& { return c.data().frame(i); },
              [&](const Frame& f, size_t i) { return snapFrame(f).sameContent(o.frames[i]); }, out, st);
